@@ -13,7 +13,7 @@ func init() {
 	register("C02", &monitor{
 		run: runC02,
 		rule: "pairs of runs of one call whose operands differ only in the content of the leaves not declared safe (shape-preserving re-instantiation: same types, lengths of byte slices, nil-ness, emptiness/zero-ness, line-feed skeleton, map-key order; star operands, literals and everything declared safe shared): " +
-			"(1) full product leaf kind x values x 58 verbs x 12 flag sets x 13 width/precision forms, (2) random calls over the full universe through all routes; oracle: Redact() of the two outputs byte-identical, same panic behaviour; " +
+			"(1) full product leaf kind x values x 58 verbs x 12 flag sets x 18 width/precision forms, (2) random calls over the full universe through all routes; oracle: Redact() of the two outputs byte-identical, same panic behaviour; " +
 			"non-trivial = the two raw outputs differ before redaction; distinct = distinct (format, operands) pairs",
 	})
 }
@@ -224,6 +224,12 @@ func (m *mutator) mutate(d *D, ctx int, top bool) *D {
 	case "RValueField":
 		c.S = QS(mutBytes(string(d.S), false))
 		c.N = mutInt("int", d.N, evenMasks)
+	case "RVFieldT":
+		switch rvFieldTIndex(d) {
+		case 2, 3, 4, 6:
+			return d // registered / SafeValue types: not re-instantiated
+		}
+		c.S = QS(mutBytes(string(d.S), false))
 	case "SArr":
 		c.N = mutInt("int", d.N, stdMasks)
 		c.S = QS(mutBytes(string(d.S), false))
@@ -381,6 +387,18 @@ func productLeavesC02() []*D {
 		dSub("FmtFwd", dS("string", rich)),
 		dSub("FmtFwd", dN("int", 48879)),
 		dSub("errs", dS("Err", rich), dS("PErr", rich)),
+		&D{K: "RVFieldT", N: 0, S: QS(rich)},
+		&D{K: "RVFieldT", N: 1, S: QS(rich)},
+		dSub("RVFieldI", dSub("Unsafe", dS("SVStr", rich))),
+		dSub("RVFieldI", dSub("Safe", dS("string", "pub"))),
+		dSub("RVFieldI", dSub("RS", dS("string", rich))),
+		dSub("RVIdx", dSub("Unsafe", dS("SVStr", rich))),
+		dSub("RVIdx", dSub("RB", dS("string", rich))),
+		dSub("RVFieldE", dSub("Unsafe", dS("SVStr", rich))),
+		dSub("RVFieldE", dSub("Safe", dS("string", "pub"))),
+		dSub("RVFieldE", dSub("RS", dS("string", rich))),
+		dSub("RVFieldE", dS("SVStr", rich)),
+		dSub("RVFieldE", dS("RegStr", rich)),
 	)
 	return out
 }
